@@ -896,3 +896,147 @@ func TestC13_OwnerStaysAlive(t *testing.T) {
 		rec.Case(fmt.Sprintf("gc|%v|%v|%s", wantRead, wantWrite, gcPoint), wantRead && wantWrite, cls, map[string]any{"read": wantRead, "write": wantWrite, "gc_point": gcPoint})
 	})
 }
+
+// ---------------------------------------------------------------------------
+// (b)+(c) together: a repeated Close of A must not disturb an object B that received A's descriptor number, even when
+// the program keeps no reference to B and only B's deferred operation keeps it alive.
+
+//go:noinline
+func orphanWithDeferredRead(ioc *sonic.IO, rawLn *sysx.RawTCPListener, readDone, finalized *int32) (peer int, fd int, err error) {
+	c, err := sonic.Dial(ioc, "tcp", rawLn.Addr())
+	if err != nil {
+		return -1, -1, err
+	}
+	p, err := rawLn.Accept(1000)
+	if err != nil {
+		return -1, -1, err
+	}
+	s := &sentinel{3}
+	runtime.SetFinalizer(s, func(*sentinel) { atomic.AddInt32(finalized, 1) })
+	buf := make([]byte, 16)
+	c.AsyncRead(buf, func(err error, n int) {
+		atomic.AddInt32(readDone, 1)
+		runtime.KeepAlive(s)
+	})
+	return p, c.RawFd(), nil
+}
+
+func TestC13_RepeatedCloseAndOrphan(t *testing.T) {
+	rec := evid.For("C13")
+	vt.Check(t, 80, func(rt *rapid.T) {
+		ioc, err := sonic.NewIO()
+		if err != nil {
+			rt.Fatalf("INFRA: %v", err)
+		}
+		defer ioc.Close()
+		rawLn, err := sysx.ListenTCP()
+		if err != nil {
+			rt.Fatalf("INFRA: %v", err)
+		}
+		defer rawLn.Close()
+		dir, _ := os.MkdirTemp("", "verif-fds-")
+		defer os.RemoveAll(dir)
+		kind := rapid.SampledFrom([]string{"conn", "listener", "packet", "peer", "file", "adapter"}).Draw(rt, "kind")
+		var closeA func() error
+		fdA := -1
+		var extraPeer = -1
+		switch kind {
+		case "conn":
+			c, err := sonic.Dial(ioc, "tcp", rawLn.Addr())
+			if err != nil {
+				rt.Fatalf("INFRA: %v", err)
+			}
+			extraPeer, _ = rawLn.Accept(1000)
+			closeA, fdA = c.Close, c.RawFd()
+		case "listener":
+			l, err := sonic.Listen(ioc, "tcp", "127.0.0.1:0", sonicopts.Nonblocking(true))
+			if err != nil {
+				rt.Fatalf("INFRA: %v", err)
+			}
+			closeA, fdA = l.Close, l.RawFd()
+		case "packet":
+			pc, err := sonic.NewPacketConn(ioc, "udp", "127.0.0.1:0")
+			if err != nil {
+				rt.Fatalf("INFRA: %v", err)
+			}
+			closeA, fdA = pc.Close, pc.RawFd()
+		case "peer":
+			mp, err := multicast.NewUDPPeer(ioc, "udp", "127.0.0.1:0")
+			if err != nil {
+				rt.Fatalf("INFRA: %v", err)
+			}
+			closeA, fdA = mp.Close, mp.NextLayer().RawFd()
+		case "file":
+			f, err := sonic.Open(ioc, filepath.Join(dir, "a"), os.O_RDWR|os.O_CREATE, 0o600)
+			if err != nil {
+				rt.Fatalf("INFRA: %v", err)
+			}
+			closeA, fdA = f.Close, f.RawFd()
+		case "adapter":
+			fds, err := syscall.Socketpair(syscall.AF_UNIX, syscall.SOCK_STREAM|syscall.SOCK_CLOEXEC, 0)
+			if err != nil {
+				rt.Fatalf("INFRA: %v", err)
+			}
+			extraPeer = fds[1]
+			f := os.NewFile(uintptr(fds[0]), "sp")
+			nc, err := net.FileConn(f)
+			_ = f.Close()
+			if err != nil {
+				rt.Fatalf("INFRA: %v", err)
+			}
+			var ad *sonic.AsyncAdapter
+			sonic.NewAsyncAdapter(ioc, nc.(*net.UnixConn), nc, func(err error, a *sonic.AsyncAdapter) { ad = a })
+			fdA = ad.RawFd()
+			closeA = func() error {
+				err := ad.Close()
+				return err
+			}
+			// the net.Conn still believes it owns the number the adapter closed: neutralise it once A is closed the first time
+			defer func() {
+				// park /dev/null on the number only if it is free, then let the net.Conn close that
+				if !sysx.FdValid(fdA) {
+					_ = syscall.Dup3(devNull, fdA, syscall.O_CLOEXEC)
+				}
+				_ = nc.Close()
+			}()
+		}
+		if extraPeer >= 0 {
+			defer syscall.Close(extraPeer)
+		}
+		// A may have an operation deferred when it is closed the first time (the stale interest must not matter either)
+		_ = closeA()
+		var readDone, finalized int32
+		peer, fdB, err := orphanWithDeferredRead(ioc, rawLn, &readDone, &finalized)
+		if err != nil {
+			rt.Fatalf("INFRA: %v", err)
+		}
+		defer sysx.Reset(peer)
+		reused := fdB == fdA
+		closes := rapid.IntRange(1, 2).Draw(rt, "moreCloses")
+		for i := 0; i < closes; i++ {
+			_ = closeA()
+		}
+		if !sysx.FdValid(fdB) {
+			rt.Fatalf("a repeated Close of the %s (descriptor %d released long before) closed descriptor %d of another object", kind, fdA, fdB)
+		}
+		for i := 0; i < 3; i++ {
+			runtime.GC()
+			time.Sleep(time.Millisecond)
+		}
+		if f := atomic.LoadInt32(&finalized); f != 0 && atomic.LoadInt32(&readDone) == 0 {
+			rt.Fatalf("after Close #%d of a %s (fd %d), the object that received descriptor %d (reused=%v) and has a deferred read was garbage collected although its operation is still in flight (Pending()=%d)", closes+1, kind, fdA, fdB, reused, ioc.Pending())
+		}
+		_, _ = syscall.Write(peer, []byte("x"))
+		for i := 0; i < 100 && atomic.LoadInt32(&readDone) == 0; i++ {
+			_ = ioc.RunOneFor(2 * time.Millisecond)
+		}
+		if n := atomic.LoadInt32(&readDone); n != 1 {
+			rt.Fatalf("after repeated Close of a %s whose descriptor number %d was reused (=%v) by another object: that object's deferred read completed %d times", kind, fdA, reused, n)
+		}
+		cls := []string{"close+orphan"}
+		if reused {
+			cls = append(cls, "orphan-reused-the-number")
+		}
+		rec.Case(fmt.Sprintf("co|%s|%d", kind, closes), reused, cls, map[string]any{"closed_kind": kind, "extra_closes": closes, "number_reused": reused})
+	})
+}
